@@ -137,17 +137,41 @@ def run(facts, rep, int_ty='i64', repo='/repo'):
         rep.saw(g)
         has_cu = any((c.generic or '').endswith('panic::catch_unwind') for c in g.calls())
         arm_err = False
+        arm_ok_bad = False
         for k, b in facts.bodies.items():
             if k.startswith(g.defp + '::{closure') and b.arg_count == 2 and 'Box<dyn std::any::Any' in b.local_ty(2):
                 rets = [p.ret for p in SymEx(b).run() if p.end == 'return']
                 if rets and all(_is_err(r) for r in rets):
                     arm_err = True
+                elif rets and any(r is not None and r[0] == 'adt' and r[2] == 'Ok' for r in rets):
+                    arm_ok_bad = True
         inst = 'guard_panic|catch_unwind + Err arm'
-        if has_cu and arm_err:
-            rep.ok('E10.R2-panic-to-err', inst, 'catch_unwind(..).unwrap_or_else(|e| Err(..))')
-        else:
+        # the same written as `match catch_unwind(f) { Ok(r) => r, Err(e) => Err(..) }`
+        match_form = None
+        if has_cu and not arm_err:
+            arms = {}
+            for p in SymEx(g, max_paths=2000).run():
+                if p.end != 'return':
+                    continue
+                d = [e for e in p.branches() if re.match(r'discr\(catch_unwind\(', sk(e.term))]
+                if not d:
+                    continue
+                v = d[-1].value
+                arms.setdefault(v, set()).add('Err' if _is_err(p.ret) else ('payload' if re.match(r'catch_unwind\(.*\)\.Ok\.0$', sk(p.ret)) else 'other:' + sk(p.ret)[:60]))
+            if arms:
+                err_arm = arms.get(1, set()) | (arms.get('else', set()) if 0 in arms else set())
+                ok_arm = arms.get(0, set()) | (arms.get('else', set()) if 1 in arms else set())
+                if err_arm == {'Err'} and ok_arm <= {'payload', 'Err'} and ok_arm:
+                    match_form = True
+                elif err_arm and 'Err' not in err_arm and all(not x.startswith('other') or 'Ok' in x for x in err_arm):
+                    match_form = False
+        if has_cu and (arm_err or match_form is True):
+            rep.ok('E10.R2-panic-to-err', inst, 'the unwind arm of catch_unwind returns Err(..)')
+        elif not has_cu or match_form is False or arm_ok_bad:
             rep.violation('E10.R2-panic-to-err', inst, 'guard_panic no longer converts an unwinding panic into `Err` (catch_unwind: %s, Err arm: %s)' % (has_cu, arm_err),
                           where=g.where())
+        else:
+            rep.indet('E10.R2: guard_panic outside the recognised fragment (catch_unwind present, unwind arm not recognised)')
     # R3
     m = facts.bodies.get('ykh::main')
     if m is None:
